@@ -1898,7 +1898,14 @@ class SourceFinder(object):
                     C = B = None
                 errs = np.nanmax(
                     rmsimg[int(xmin): int(xmax), int(ymin): int(ymax)])
-                result, _ = do_lmfit(idata, params, B=B)
+                try:
+                    result, _ = do_lmfit(idata, params, B=B)
+                except AegeanNaNModelError:
+                    # as in blind mode: an island that cannot be fit is
+                    # skipped instead of aborting the whole run
+                    self.log.debug(
+                        " fit of island {0} failed: skipping".format(inum))
+                    continue
                 model = covar_errors(result.params, idata, errs=errs, B=B, C=C)
 
             # convert the results to a source object
